@@ -31,7 +31,8 @@ root packet Root {
     Code,
     Qty Volume,
     repeat Sub Subs `subs`,
-    Sub,
+    Sub `the sub`,
+    repeat Empty `no name, with doc`,
     Inner {
         i16 a,
         repeat f64 bs,
